@@ -156,6 +156,18 @@ def gen_c18():
            not re.search(r'if\(d1>(\w+)/d2\|\|d1\*d2>\1/d3\)throw', n):
             raise E.ExtractError('checkExtent: unrecognised shape ' + n[:200])
 
+    # entry points: which tuple components go where in the model constructors
+    mio = E.strip_comments(E.read('src/MDP/IO.cpp'))
+    pio = E.strip_comments(E.read('src/POMDP/IO.cpp'))
+    mb, mio_ln = body_of(mio, r'Model\s+parseCassandra\s*\(\s*std::istream\s*&\s*input\s*\)\s*\{', 'MDP::parseCassandra')
+    pb, pio_ln = body_of(pio, r'Model<MDP::Model>\s+parseCassandra\s*\(\s*std::istream\s*&\s*input\s*\)\s*\{', 'POMDP::parseCassandra')
+    def ctor(body, bind_re, call_re, what):
+        mbind = E.find1(bind_re, body, what + ' structured binding')
+        mcall = E.find1(call_re, body, what + ' constructor call')
+        return [x.strip() for x in mbind.group(1).split(',')], [x.strip() for x in mcall.group(1).split(',')]
+    m_bind, m_call = ctor(mb, r'\[([^\]]*)\]\s*=\s*parser\.parseMDP\s*\(\s*input\s*\)', r'return\s+Model\s*\(([^)]*)\)', 'MDP::parseCassandra')
+    p_bind, p_call = ctor(pb, r'\[([^\]]*)\]\s*=\s*parser\.parsePOMDP\s*\(\s*input\s*\)', r'return\s+Model<MDP::Model>\s*\(([^)]*)\)', 'POMDP::parseCassandra')
+
     b = lambda x: 'true' if x else 'false'
     strs = lambda l: '[' + ', '.join('"%s"' % x for x in l) + ']'
     body = f'''/- GENERATED by tools/extract_c18.py from {REL} — do not edit. -/
@@ -186,6 +198,13 @@ def uncheckedTokenAccess : Bool := {b(unchecked)}
 def nextLineChecked : Bool := {b(next_checked)}
 /-- parseMDP / parsePOMDP reject sizes whose table extent overflows `size_t` (checkExtent) -/
 def sizeGuard : Bool := {b(g_mdp)}
+
+/-- src/MDP/IO.cpp:{mio_ln} names bound to the tuple of parseMDP, and the arguments of the Model constructor call -/
+def mdpBinding : List String := {strs(m_bind)}
+def mdpCtorArgs : List String := {strs(m_call)}
+/-- src/POMDP/IO.cpp:{pio_ln} same for parsePOMDP / Model<MDP::Model> (observation count and table first) -/
+def pomdpBinding : List String := {strs(p_bind)}
+def pomdpCtorArgs : List String := {strs(p_call)}
 
 /-- the flags the operational model runs with -/
 def flags : AITB.Cassandra.Flags := ⟨rowLenThrows, sizeGuard⟩
